@@ -850,6 +850,8 @@ pub fn observe(lib: &Library, e: Embed) -> Result<Expect, String> {
                         LocationPrefix::I => 'I',
                         LocationPrefix::Q => 'Q',
                         LocationPrefix::M => 'M',
+                        #[allow(unreachable_patterns)]
+                        _ => panic!("ironplc dsl variant unknown to the verification harness"),
                     };
                     let size = match a.size {
                         SizePrefix::Nil => None,
@@ -859,6 +861,8 @@ pub fn observe(lib: &Library, e: Embed) -> Result<Expect, String> {
                         SizePrefix::D => Some('D'),
                         SizePrefix::L => Some('L'),
                         SizePrefix::Unspecified => Some('*'),
+                        #[allow(unreachable_patterns)]
+                        _ => panic!("ironplc dsl variant unknown to the verification harness"),
                     };
                     return Ok(Expect::Address { loc, size, comps: a.address.clone() });
                 }
@@ -894,6 +898,8 @@ pub fn observe(lib: &Library, e: Embed) -> Result<Expect, String> {
                     let (h, mi, s, u) = t.hmsm();
                     Expect::Dt(y, mo, d, h, mi, s, u)
                 }
+                #[allow(unreachable_patterns)]
+                _ => panic!("ironplc dsl variant unknown to the verification harness"),
             })
         }
     }
